@@ -63,11 +63,12 @@ pub fn run_prop(prop: &'static str, sem: hist::Sem, seed: u64, run: u64) -> Repo
             Ev::Close { path } => json!({"close": path}),
             Ev::Save { path } => json!({"save": path}),
             Ev::Idle => json!("idle-timer-fires"),
+            Ev::Burst { n } => json!({"burst_of_up_to": n}),
             Ev::Request { kind, path, pos, .. } => json!({"request": format!("{kind:?}"), "path": path, "pos": pos}),
             Ev::RenameLoop { path, pos, new_name } => json!({"rename_loop": path, "pos": pos, "new_name": new_name}),
             Ev::Folder { add, b } => json!({"folder_added": add, "second_folder": b}),
             Ev::FolderReadd { b } => json!({"folder_removed_and_added_in_one_notification": true, "second_folder": b}),
-            Ev::DiskDelete { path } => json!({"deleted_on_disk": path}),
+            Ev::DiskDelete { path, how } => json!({"deleted_on_disk": path, "how": (["removed", "directory in its place", "not UTF-8"][(*how).min(2) as usize])}),
             Ev::DiskRestore { path } => json!({"restored_on_disk": path}),
             Ev::Checkpoint => json!("checkpoint: quiesce, compare with a fresh server"),
             Ev::Sem { target, mode } => json!({"semantic_checkpoint": mode, "target": target, "identifier_occurrences": scn.sem.get(*target).map(|t| t.occs.values().map(|v| v.len()).sum::<usize>())}),
@@ -88,8 +89,9 @@ pub fn run_prop(prop: &'static str, sem: hist::Sem, seed: u64, run: u64) -> Repo
         evals: 1 + out.stats.evals,
         oracle_checks: out.stats.oracle_checks,
         sim_time_ms: out.stats.sim_time_ms,
+        // what the environment did to the server between its own steps
+        fault_kinds: probes.iter().filter(|p| p.ends_with("_behind_the_server") || p.starts_with("idle_timer_") || p.starts_with("folder_removed")).cloned().collect(),
         probes,
-        fault_kinds: vec![],
         sample,
         counters,
     }
@@ -105,6 +107,17 @@ pub fn replay_prop(prop: &str, doc: &serde_json::Value) -> Result<Option<Found>,
     Ok(out.violation.map(|v| found_from(prop, &scn, &v.signature, &v.oracle, &v.detail)))
 }
 
+/// Replay of a finding of the batch that runs a history against the real binary as well.
+pub fn replay_sim_vs_real(prop: &str, doc: &serde_json::Value) -> Result<Option<Found>, String> {
+    let scn: Scenario = serde_json::from_value(doc["scenario"].clone()).map_err(|e| e.to_string())?;
+    let prop: &'static str = match prop {
+        "C17" => "C17",
+        "C18" => "C18",
+        _ => "C15",
+    };
+    Ok(sim_vs_real(prop, &scn).0)
+}
+
 /// The scenario of run (seed, run) of `prop`, for the driver's attribution probe.
 pub fn scenario_of(prop: &'static str, sem: hist::Sem, seed: u64, run: u64) -> Scenario {
     hist::plan(seed, prop, run, sem).scenario
@@ -116,6 +129,26 @@ pub fn scenario_of(prop: &'static str, sem: hist::Sem, seed: u64, run: u64) -> S
 pub fn validate(prop: &'static str, sem: hist::Sem, seed: u64, run: u64) -> Report {
     let plan = hist::plan(seed, prop, run, sem);
     let scn = plan.scenario.clone();
+    let (violation, a, b) = sim_vs_real(prop, &scn);
+    Report {
+        violation,
+        digest: a.digest,
+        interleaving: crate::prng::digest64(a.stats.interleaving.as_bytes()),
+        states: vec![],
+        nontrivial: a.transcript.len() >= 2,
+        evals: 2,
+        oracle_checks: a.transcript.len() as u64,
+        sim_time_ms: 0,
+        probes: vec![],
+        fault_kinds: vec![],
+        sample: json!({"run": run, "transcript_entries": a.transcript.len(), "first_entries": a.transcript.iter().take(4).collect::<Vec<_>>()}),
+        counters: vec![("traces_validated_against_real_binary".into(), (a.discarded.is_none() && b.discarded.is_none()) as u64), ("transcript_entries".into(), a.transcript.len() as u64)],
+    }
+}
+
+/// One history against the simulated server and against the real `oal-lsp` process.
+fn sim_vs_real(prop: &'static str, scn: &Scenario) -> (Option<Found>, crate::lsp_sim::Outcome, crate::lsp_sim::Outcome) {
+    let scn = scn.clone();
     let bin = format!("{}/oal-lsp", std::env::var("OALSIM_REALBIN").unwrap_or_default());
     std::env::remove_var("OALSIM_REAL_LSP");
     let a = run_scenario(&scn, None);
@@ -146,18 +179,5 @@ pub fn validate(prop: &'static str, sem: hist::Sem, seed: u64, run: u64) -> Repo
             ));
         }
     }
-    Report {
-        violation,
-        digest: a.digest,
-        interleaving: crate::prng::digest64(a.stats.interleaving.as_bytes()),
-        states: vec![],
-        nontrivial: a.transcript.len() >= 2,
-        evals: 2,
-        oracle_checks: a.transcript.len() as u64,
-        sim_time_ms: 0,
-        probes: vec![],
-        fault_kinds: vec![],
-        sample: json!({"run": run, "transcript_entries": a.transcript.len(), "first_entries": a.transcript.iter().take(4).collect::<Vec<_>>()}),
-        counters: vec![("traces_validated_against_real_binary".into(), (a.discarded.is_none() && b.discarded.is_none()) as u64), ("transcript_entries".into(), a.transcript.len() as u64)],
-    }
+    (violation, a, b)
 }
